@@ -4,5 +4,8 @@ Add == <<"add">>
 Rm(i) == <<"rm", i>>
 RmIf(S) == <<"rmif", S>>
 Clear == <<"clear">>
-Scripts == { <<Add, Add, Rm(0)>>, <<Add, Rm(0), Add>>, <<Add, Add, Clear>>, <<Add, RmIf({0}), Add>>, <<Add, Add, RmIf({1})>> }
+Scripts == { <<Add, Add, Rm(0)>>, <<Add, Rm(0), Add>>, <<Add, Add, Clear>>, <<Add, RmIf({0}), Add>>, <<Add, Add, RmIf({1})>>,
+             <<Add, Clear, Add>>, <<Add, Add, Clear, Add>> }   \* remove_all, then add: the old ids must stay dead
+ScriptsG == Scripts \ { <<Add, Add, Clear, Add>> }
+ScriptsClearAdd == { <<Add, Clear, Add>> }
 =============================================================================
